@@ -87,25 +87,38 @@ def Ctx.new (c : Cfg) (doc : TsDoc) (t : Target) : Ctx :=
 def Ctx.local (x : Ctx) (n : Name) : String := localName x.bag n
 def Ctx.leaf (x : Ctx) (n : Name) : Ty := .ref (x.local n)
 
-def objectBody (x : Ctx) (td : TypeDef) : Ty :=
+/-- object type: `__typename` literal + every field (leaf = how a named type is referenced) -/
+def objectBodyL (leaf : Name → Ty) (td : TypeDef) : Ty :=
   .obj (("__typename", false, false, .strLit td.name)
-    :: td.fields.map fun f => (f.name, false, false, tsOf x.leaf false f.ty))
+    :: td.fields.map fun f => (f.name, false, false, tsOf leaf false f.ty))
+
+def objectBody (x : Ctx) (td : TypeDef) : Ty := objectBodyL x.leaf td
+
+/-- interface / union: `ts_union` of the references to the possible object types -/
+def membersBodyL (leaf : Name → Ty) (names : List Name) : Ty := tsUnion (names.map leaf)
 
 def interfaceBody (x : Ctx) (td : TypeDef) : Ty :=
-  tsUnion ((x.schema.objectImplementers td.name).map x.leaf)
+  membersBodyL x.leaf (x.schema.objectImplementers td.name)
 
 def unionBody (x : Ctx) (td : TypeDef) : Ty :=
-  tsUnion (td.members.map fun m => x.leaf m.1)
+  membersBodyL x.leaf (td.members.map (·.1))
 
 def enumBody (td : TypeDef) : Ty :=
   tsUnion (td.values.map fun v => .strLit v.name)
 
-def inputField (x : Ctx) (f : InputValueDef) : Field :=
-  let opt := x.cfg.optionalInput && !f.ty.isNonNull
-  (f.name, true, opt,
-    if opt then .union [tsCore x.leaf true f.ty, .prim "null", .prim "undefined"] else tsOf x.leaf true f.ty)
+/-- type of a possibly-optional input position: `| undefined` is appended when it is optional
+    (print→parse normal form of `Union[Union[core, null], undefined]`) -/
+def optFieldTy (leaf : Name → Ty) (ro opt : Bool) (t : GType) : Ty :=
+  if opt then .union [tsCore leaf ro t, .prim "null", .prim "undefined"] else tsOf leaf ro t
 
-def inputBody (x : Ctx) (td : TypeDef) : Ty := .obj (td.inputs.map (inputField x))
+def inputFieldL (leaf : Name → Ty) (optionalInput : Bool) (f : InputValueDef) : Field :=
+  let opt := optionalInput && !f.ty.isNonNull
+  (f.name, true, opt, optFieldTy leaf true opt f.ty)
+
+def inputBodyL (leaf : Name → Ty) (optionalInput : Bool) (td : TypeDef) : Ty :=
+  .obj (td.inputs.map (inputFieldL leaf optionalInput))
+
+def inputBody (x : Ctx) (td : TypeDef) : Ty := inputBodyL x.leaf x.cfg.optionalInput td
 
 /-- body of the alias of a type definition in the namespace of the context's target;
     `none` = the kind is not printed for this target; `error name` = scalar without a TypeScript type -/
